@@ -16,6 +16,8 @@
 """Definition of StructureParser, a base class for specific parsers.
 """
 
+from diffpy.structure.structureerrors import StructureFormatError
+
 
 class StructureParser(object):
     """Base class for all structure parsers.
@@ -71,8 +73,12 @@ class StructureParser(object):
     def parseFile(self, filename):
         """Create Structure instance from an existing file."""
         self.filename = filename
-        with open(filename) as fp:
-            s = fp.read()
+        try:
+            with open(filename) as fp:
+                s = fp.read()
+        except UnicodeDecodeError as err:
+            emsg = "cannot decode file content: %s" % err
+            raise StructureFormatError(emsg)
         stru = self.parse(s)
         return stru
 
